@@ -465,11 +465,11 @@ def _shapes_messaging(tier):
     _preimport()
     # symbolic message types: one engine path per (history, ordering of the types), ~5-10 ms each
     s = [dict(n_ops=3, prio="sym", senders=["s_loc"]),                            # ~630 paths
-         dict(n_ops=3, prio="sym", senders=["r_snd"], late=["b_late"]),           # ~630
-         dict(n_ops=3, prio="sym_hi")]                                            # ~1 240
+         dict(n_ops=3, prio="sym", senders=["r_snd"], late=["b_late"])]           # ~630
     if tier == "thorough":
         s += (_split(dict(n_ops=5, prio="sym_hi", senders=["s_loc"]), 1)                  # ~20 000 paths in all
               + [dict(n_ops=3, prio="sym"),                                              # ~3 800
+                 dict(n_ops=3, prio="sym_hi"),                                           # ~1 240
                  dict(n_ops=4, prio="sym", senders=["s_loc"]),                           # ~8 400
                  dict(n_ops=4, prio="sym", senders=["r_snd"], late=["b_late"]),          # ~8 900
                  dict(n_ops=4, prio="sym_hi"),
@@ -1464,9 +1464,10 @@ def _shapes_discovery(tier):
     _preimport()
     s = []
     # --- computations: registration / unregistration / (un)subscription, 2 agents
-    s += _dsplit(dict(agents=_A2, comps=["c1"], families=["computation"], n_ops=4))
-    s += [dict(agents=_A2, comps=["c1", "c2"], families=["computation"], n_ops=4, kinds=["nocb", "cb"], hosts=["a1"], subscribers=["a2"]),
-          dict(agents=_A2, comps=["c1"], families=["computation"], n_ops=4, sched="end-lifo"),
+    s += [dict(agents=_A2, comps=["c1"], families=["computation"], n_ops=4)]
+    two_comps = dict(agents=_A2, comps=["c1", "c2"], families=["computation"], n_ops=4, kinds=["nocb", "cb"], hosts=["a1"], subscribers=["a2"])
+    s += [dict(two_comps, n_ops=3),
+          dict(agents=_A2, comps=["c1"], families=["computation"], n_ops=4, sched="end-lifo", kinds=["nocb", "cb"]),
           dict(agents=_A2, comps=["c1"], families=["computation"], n_ops=4, sched="random", seeds=3, kinds=["nocb", "cb"]),
           dict(agents=_A2, comps=["c1"], families=["computation"], n_ops=2, sched="explore", init=_HOSTED, kinds=["nocb", "cb"]),
           dict(agents=_A2, comps=["c1"], families=["computation"], n_ops=3, init=_HOSTED),
@@ -1477,8 +1478,9 @@ def _shapes_discovery(tier):
           dict(agents=_A3, comps=["c1"], families=["computation"], hosts=["a1", "a2"], subscribers=[], n_ops=4, sched="end-lifo",
                init=[["sub", "a3", "computation", "c1", "cb"]])]
     # --- agents: arrival (a3 starts late), departure, (un)subscription, subscription to all agents
-    s += _dsplit(dict(agents=_A3, late=["a3"], leavers=["a2", "a3"], subscribers=["a1", "a2"], agent_targets=["a2", "a3"], comps=[],
-                      families=["agent"], n_ops=4))
+    agents4 = dict(agents=_A3, late=["a3"], leavers=["a2", "a3"], subscribers=["a1", "a2"], agent_targets=["a2", "a3"], comps=[],
+                   families=["agent"], n_ops=4)
+    s += [dict(agents4, n_ops=3), dict(agents4, subscribers=["a1"], agent_targets=["a2"])]
     s += [dict(agents=_A3, late=["a3"], leavers=["a2", "a3"], subscribers=["a1"], agent_targets=["a2"], comps=[], families=["agent"],
                all_agents=True, n_ops=4, kinds=["nocb", "cb"]),
           dict(agents=_A3, late=["a3"], leavers=["a3"], subscribers=["a1"], agent_targets=["a3"], comps=[], families=["agent"], n_ops=3,
@@ -1493,9 +1495,13 @@ def _shapes_discovery(tier):
     s += [dict(agents=_A2, hosts=["a1"], subscribers=["a2"], comps=["c1"], families=["computation", "replica"], n_ops=4, kinds=["nocb", "cb"]),
           dict(agents=_A2, hosts=["a1"], subscribers=["a2"], comps=["c1"], families=["computation", "replica"], n_ops=3, kinds=["nocb", "cb"],
                init=_HOSTED, sched="random", seeds=3),
-          _ren(dict(agents=_A3, leavers=["a2"], hosts=["a2"], subscribers=["a1", "a3"], agent_targets=["a2"], comps=["c1"],
+          _ren(dict(agents=_A3, leavers=["a2"], hosts=["a2"], subscribers=["a1"], agent_targets=["a2"], comps=["c1"],
                     families=["agent", "computation"], n_ops=4, kinds=["nocb", "cb"]), _NAMES)]
     if tier == "thorough":
+        s += [two_comps]
+        s += _dsplit(agents4)
+        s += _dsplit(_ren(dict(agents=_A3, leavers=["a2"], hosts=["a2"], subscribers=["a1", "a3"], agent_targets=["a2"], comps=["c1"],
+                               families=["agent", "computation"], n_ops=4, kinds=["nocb", "cb"]), _NAMES))
         s += _dsplit(dict(agents=_A2, comps=["c1"], families=["computation"], n_ops=5))
         s += _dsplit(dict(agents=_A2, comps=["c1", "c2"], families=["computation"], n_ops=4))
         s += _dsplit(dict(agents=_A3, comps=["c1"], families=["computation"], n_ops=4, kinds=["nocb", "cb"]))
